@@ -93,6 +93,12 @@ class StmtMixin(object):
                 fail(d, 'auto without initializer')
             v = self.ev(init)
             return self.bind_auto(name, v, is_ref, d)
+        if re.match(r'(const\s+)?std::(lock_guard|unique_lock|scoped_lock)<', core):
+            # scoped lock: no data effect; the region (to the end of the enclosing scope) is recorded for the frame analysis of C12
+            txt = src_text(d) or ''
+            mm = re.search(r'\(\s*(\w+)\s*\)', txt)
+            self.locks = getattr(self, 'locks', []) + [(self.frame.fname, mm.group(1) if mm else '?')]
+            return
         td = resolve(tstr, self.tenv(this.cls, this.cfg))
         if td.kind == 'sstream':
             self.bind(name, SStream())
